@@ -135,7 +135,7 @@ impl Check for C06 {
         vec!["checked at transaction boundaries only (inside a transaction the uncommitted allocations are not attributed)".into(), "the decoder is a second reading of the format, see DESIGN.md 3.4".into(), "snapshot and page-peek hooks are read-only (hooks H3)".into()]
     }
     fn plan(&self, tier: Tier) -> Plan {
-        Plan { cases: tier.pick(1200, 40_000), max_recs: tier.pick(110, 180), max_shrink_iters: 2500, workers: 16 }
+        Plan { cases: tier.pick(12_000, 300_000), max_recs: tier.pick(110, 180), max_shrink_iters: 2500, workers: 16 }
     }
     fn run(&self, tape: &Tape, want_sample: bool) -> Result<CaseOut, Failure> {
         let (o, r) = run_c06(tape, want_sample);
@@ -265,7 +265,7 @@ impl Check for C10 {
         vec!["table definition and dynamic collection records are documented only in source comments; the decoder's reading is DESIGN.md Appendix C".into(), "comparators exist for the key types the harness creates (u64, &str, &[u8]) and the four internal key types".into()]
     }
     fn plan(&self, tier: Tier) -> Plan {
-        Plan { cases: tier.pick(600, 20_000), max_recs: tier.pick(110, 170), max_shrink_iters: 2000, workers: 16 }
+        Plan { cases: tier.pick(5_000, 120_000), max_recs: tier.pick(110, 170), max_shrink_iters: 2000, workers: 16 }
     }
     fn run(&self, tape: &Tape, want_sample: bool) -> Result<CaseOut, Failure> {
         let (o, r) = run_c10(tape, want_sample);
